@@ -110,8 +110,22 @@ func scenF19(s *Sim) {
 	s.ticks(6)
 }
 
+// F17: the derived ids of two different subscriptions coincide ("a" + "b:s" and "a:b" + "s").
+func scenF17(s *Sim) {
+	s.Submit(createP("a", Base+50000, nil))
+	s.Submit(createP("a:b", Base+50000, nil))
+	s.ticks(4)
+	s.Submit(subscribeR("b:s", "a"))
+	s.ticks(4)
+	s.Submit(subscribeR("s", "a:b"))
+	s.ticks(4)
+	s.Submit(completeP("a:b", promise.Resolved))
+	s.ticks(6)
+}
+
 func TestRegressC05(t *testing.T) {
 	runScenarios(t, "C05", []scenario{
+		{name: "F17-derived-id-collision", run: scenF17, props: []string{"C05"}},
 		{name: "F1-callback-lost-to-completion", run: scenF1(false), props: []string{"C05"}},
 		{name: "F1-subscription-lost-to-completion", run: scenF1(true), props: []string{"C05"}},
 		{name: "F19-loser-completes-winners-notify-task", run: scenF19, props: []string{"C05", "C08"}},
